@@ -24,11 +24,14 @@ Proof.
 Qed.
 
 Theorem compile_prefix ci txt p : compile_glob ci txt = Ok p -> forall s,
-  pat_matches_prefix p s = true <-> exists s1 s2, s = s1 ++ s2 /\ gmatch ci (pat_g p) s1.
+  pat_matches_prefix p s = true <->
+  exists s1 s2, s = s1 ++ s2 /\ gmatch ci (pat_g p) s1 /\ (s2 = [] \/ exists t, s2 = 47 :: t).
 Proof.
   intros H s. apply compile_ok in H as (_ & Hci & Hwf & _).
   unfold pat_matches_prefix, pat_re. rewrite Hci, re_match_prefix_spec.
-  split; intros (s1 & s2 & E & Hm); exists s1, s2; (split; [auto|]); apply (translate ci _ Hwf); auto.
+  split; intros (s1 & s2 & E & Hm & B); exists s1, s2; (split; [auto|]); (split; [apply (translate ci _ Hwf); auto|]).
+  - destruct s2 as [|c t]; auto. right. cbn in B. apply N.eqb_eq in B as ->. eauto.
+  - destruct B as [->|(t & ->)]; reflexivity.
 Qed.
 
 Theorem compile_text ci txt p : compile_glob ci txt = Ok p -> pat_text p = show_re (to_re (pat_g p)).
